@@ -10,7 +10,7 @@
     ChangeKey/DeleteIndex/PeekIndex/ContainsIndex succeed iff the index is held, Peek/Delete
     return a held index whose current key is extremal (any such index), ContainsKey /
     ContainsValue are existential over the held entries, Size is the number of held indices. *)
-From Algo.C05 Require Import Model Spec ProofsRange ProofsFibDeg Proofs.
+From Algo.C05 Require Import Model Spec SpecFacts ProofsRange ProofsFibDeg Proofs.
 Open Scope Z_scope.
 
 Definition simulates (cmp : Z -> Z -> Z) (i : impl) : Prop :=
@@ -56,6 +56,45 @@ Proof. exact ifib_simulates. Qed.
 Theorem C05_max_degree_bound : forall (d : nat) (n : Z), fibn (d + 2) <= n -> Z.of_nat d < max_degree n.
 Proof. exact max_degree_lb. Qed.
 
+(** What a permitted result means ([held m i k v]: index i is held with key k and value v;
+    [free_slot m i]: i is in range and not held) — the executable [spec_step] unfolded. *)
+Theorem C05_spec_insert : forall cmp m i k v b m',
+  spec_step cmp m (Insert i k v) (OBool b) = Some m' ->
+  (b = true <-> free_slot m i) /\ m' = (if b then aset m i (Some (k, v)) else m).
+Proof. exact spec_insert. Qed.
+
+Theorem C05_spec_change_key : forall cmp m i k b m',
+  spec_step cmp m (ChangeKey i k) (OBool b) = Some m' ->
+  (b = true <-> exists k0 v, held m i k0 v) /\
+  (forall k0 v, held m i k0 v -> m' = aset m i (Some (k, v))) /\ (b = false -> m' = m).
+Proof. exact spec_change_key. Qed.
+
+Theorem C05_spec_delete : forall cmp m i k v m',
+  spec_step cmp m Delete (OEntry i k v) = Some m' ->
+  held m i k v /\ (forall j k' v', held m j k' v' -> cmp k k' <= 0) /\ m' = aset m i None.
+Proof. exact spec_delete. Qed.
+
+Theorem C05_spec_peek : forall cmp m i k v m',
+  spec_step cmp m Peek (OEntry i k v) = Some m' ->
+  held m i k v /\ (forall j k' v', held m j k' v' -> cmp k k' <= 0) /\ m' = m.
+Proof. exact spec_peek. Qed.
+
+Theorem C05_spec_delete_index : forall cmp m i r m',
+  spec_step cmp m (DeleteIndex i) r = Some m' ->
+  (exists k v, r = OKV k v /\ held m i k v /\ m' = aset m i None) \/ (r = ONoKV /\ aget m i = None /\ m' = m).
+Proof. exact spec_delete_index. Qed.
+
+Theorem C05_spec_contains : forall cmp m o b m',
+  spec_step cmp m o (OBool b) = Some m' ->
+  match o with
+  | ContainsIndex i => m' = m /\ (b = true <-> exists k v, held m i k v)
+  | ContainsKey k => m' = m /\ (b = true <-> exists j k' v', held m j k' v' /\ cmp k' k = 0)
+  | ContainsValue v => m' = m /\ (b = true <-> exists j k', held m j k' v)
+  | IsEmpty => m' = m /\ (b = true <-> held_count m = 0)
+  | _ => True
+  end.
+Proof. exact spec_contains. Qed.
+
 (** The comparators of the correspondence (generic.NewCompareFunc[int], its reverse, and the
     magnitude-returning a - b, 3 * (a - b), b - a) are instances of the hypotheses above. *)
 Theorem C05_harness_comparators :
@@ -90,4 +129,10 @@ Print Assumptions C05_ibinom_simulates.
 Print Assumptions C05_ifib_simulates.
 Print Assumptions C05_max_degree_bound.
 Print Assumptions C05_harness_comparators.
+Print Assumptions C05_spec_insert.
+Print Assumptions C05_spec_change_key.
+Print Assumptions C05_spec_delete.
+Print Assumptions C05_spec_peek.
+Print Assumptions C05_spec_delete_index.
+Print Assumptions C05_spec_contains.
 Print Assumptions C05_out_of_range_rejected.
